@@ -326,7 +326,7 @@ class _RunState:
         return self.memo[m.key]
 
 
-def rule_r5(ctx):
+def rule_r5(ctx, rule="R5"):
     repo = ctx.repo
     base = repo.cls("onnx_ir.passes._pass_infra:PassBase")
     n_cls = n_fields = 0
@@ -356,14 +356,14 @@ def rule_r5(ctx):
                 for fld in sorted(run_state):
                     n_fields += 1
                     ex = [x for x in exposed if x[0] == fld]
-                    ctx.check("R5", f"{c.name}.{entry}: per-run field {fld} is reset before use", not ex, e, ex[0][1] if ex else e.node,
+                    ctx.check(rule, f"{c.name}.{entry}: per-run field {fld} is reset before use", not ex, e, ex[0][1] if ex else e.node,
                               (f"`self.{fld}` is written while the pass runs but {c.name}.{entry} uses it ({ex[0][2]}: `{norm(ex[0][1])}`) before "
                                "re-initialising it unconditionally: what an earlier run of the same pass object left there decides what "
                                "this run does to the model") if ex else "",
                               how="fields written outside __init__ = per-run state; syntax-directed walk: top-level stores/resetting helpers vs first uses (through self-helpers)",
                               construct=f"{c.name}.{entry} uses {fld} before reset")
                 if not run_state:
-                    ctx.ob("R5", f"{c.name}.{entry}: no per-run state on the pass object", True, nontrivial=False, how="no self field written outside __init__")
+                    ctx.ob(rule, f"{c.name}.{entry}: no per-run state on the pass object", True, nontrivial=False, how="no self field written outside __init__")
     ctx.tables["per-run state fields of pass classes"] = {k: v for k, v in sorted(table.items()) if v}
     ctx.require(n_cls >= 15, f"only {n_cls} pass classes found")
     ctx.require(n_fields >= 8, f"only {n_fields} per-run fields examined (RemoveUnusedFunctionsPass._used / InlinePass state expected)")
